@@ -61,6 +61,14 @@ let lin_of s = if s = "-" then [] else List.map term_of (String.split_on_char ';
 let lin_str l = if l = [] then "-" else String.concat ";" (List.map (fun ((a, b), p) -> Printf.sprintf "%d,%d,%s" (int_of_z a) (int_of_z b) (string_of_pstr p)) l)
 let dense_str n a = String.concat ";" (List.map (fun row -> String.concat " " (List.map gi_str row)) (dense (nat_of_int n) (fun r c -> denote a r c)))
 
+let gi_of s = match String.split_on_char ',' s with [a; b] -> (z_of_int (int_of_string a), z_of_int (int_of_string b)) | _ -> failwith "bad gi"
+let bits_int l = List.fold_left (fun acc b -> 2 * acc + (if b then 1 else 0)) 0 l
+(* a dense matrix "a,b a,b;a,b a,b" as a function of bit-list indices *)
+let mat_of s =
+  let rows = Array.of_list (List.map (fun r -> Array.of_list (List.map gi_of (String.split_on_char '|' r))) (String.split_on_char ';' s)) in
+  fun r c -> rows.(bits_int r).(bits_int c)
+let vecs_str l = String.concat " " (List.map gi_str l)
+
 let handle (toks : string list) : string =
   match toks with
   | ["sign"; p; q] -> res_str gi_str (sign_code (pstr_of_string p) (pstr_of_string q))
@@ -160,6 +168,17 @@ let handle (toks : string list) : string =
        | "dense" -> dense_str (int_of_nat (size_of x)) x
        | _ -> "ERR lin op")
   | ["linscale"; re; im; a] -> lin_str (lscale (z_of_int (int_of_string re), z_of_int (int_of_string im)) (lin_of a))
+  | ["decomp"; n; m] -> let n' = nat_of_int (int_of_string n) in let a = mat_of m in
+      let x = decompose n' a and y = decompose_iter n' a in
+      if x = y then vecs_str x else "ERR block-recursive and iterative butterfly differ"
+  | ["decompdiag"; n; m] -> let v = Array.of_list (List.map gi_of (String.split_on_char '|' m)) in
+      vecs_str (decompose_diag (nat_of_int (int_of_string n)) (fun r -> v.(bits_int r)))
+  | ["pindex"; p] -> let p = pstr_of_string p in
+      Printf.sprintf "%d %s" (int_of_nat (index p)) (match dindex p with None -> "-1" | Some k -> string_of_int (int_of_nat k))
+  | ["pweights"; n; pos] -> String.concat " " (List.map (fun k -> string_of_int (int_of_nat k)) (pauli_weights (nat_of_int (int_of_string n)) (nat_of_int (int_of_string pos))))
+  | ["weightin"; p; v] -> res_str gi_str (weight_in (pstr_of_string p) (List.map gi_of (String.split_on_char '|' v)))
+  | ["shapeok"; a; b; c] -> bool_str (shape_ok (nat_of_int (int_of_string a)) (nat_of_int (int_of_string b)) (nat_of_int (int_of_string c)))
+  | ["dshapeok"; a; b] -> bool_str (diag_shape_ok (nat_of_int (int_of_string a)) (nat_of_int (int_of_string b)))
   | _ -> "ERR unknown request"
 
 let () =
